@@ -190,10 +190,15 @@ impl Check for C17 {
             Phase { name: "label decoding classification on every integer of [-70000, 70000] (thorough)", cases: if q { 0 } else { (2 * WINDOW / 100 + 1) as u64 }, exhaustive: true },
             Phase { name: "label decoding classification on random 64-bit integers (thorough)", cases: if q { 0 } else { crate::mon::scale(4000, b) }, exhaustive: false },
             Phase { name: "text labels are kept as text in the 9 label types and 8 typed fields: decimal spellings and names of every registry entry, boundary spellings, long texts", cases: (text_probes().len() as u64 + 19) / 20, exhaustive: true },
+            Phase { name: "birthday: 2^18 pairwise distinct text labels in a header / key / claims map are all kept", cases: 3, exhaustive: true },
         ]
     }
     fn run_case(&self, ctx: &mut Ctx, phase: usize, idx: u64) {
         match phase {
+            8 => {
+                let w = [0u64, 2, 4][idx as usize];
+                super::common::birthday_case(ctx, w);
+            }
             0 => {
                 let r = ALL_REGS[idx as usize];
                 let es = registry::entries(r);
@@ -286,7 +291,7 @@ impl Check for C17 {
         }
     }
     fn rule(&self) -> String {
-        "exhaustive: every name of the 16 registry enumerations against a frozen IANA table (to_i64, discriminant, from_i64 of the registered value, round trip, no two names on one integer); from_i64 and is_private for every integer in [-70000, 70000] (covers every assigned value and the private-use boundary) plus 64-bit extremes and every registered value shifted by 2^8 ... 2^56, negated, complemented and sign-flipped (aliases under truncation); label decoding through the 9 label types and 8 typed fields (alg in header/key/KDF context, crit element, content type, kty, key op, claim key) on [-66000,-65000] u [-300,12000] and the probe points, judged by the reference model (registered -> name; unregistered private -> kept; otherwise rejected); every header-map and key-map case is repeated inside 28 header carriers (protected / unprotected buckets of every structure, counter signatures, later signers and recipients) and 4 key-set positions. The thorough tier adds label decoding on every integer of [-70000, 70000] and from_i64 / is_private / label decoding on random 64-bit integers (uniform, random widths, registered values displaced by random multiples of 2^8..2^56). Text labels: every text of a probe list (decimal, signed and zero-padded spellings of every registered value, names of every registry entry in several spellings, JWT claim names, private-use boundary and 64-bit extremes as text, texts of 23..70000 bytes) must be kept as text by every label type and typed field. Non-trivial = distinct (registry, integer) groups.".into()
+        "exhaustive: every name of the 16 registry enumerations against a frozen IANA table (to_i64, discriminant, from_i64 of the registered value, round trip, no two names on one integer); from_i64 and is_private for every integer in [-70000, 70000] (covers every assigned value and the private-use boundary) plus 64-bit extremes and every registered value shifted by 2^8 ... 2^56, negated, complemented and sign-flipped (aliases under truncation); label decoding through the 9 label types and 8 typed fields (alg in header/key/KDF context, crit element, content type, kty, key op, claim key) on [-66000,-65000] u [-300,12000] and the probe points, judged by the reference model (registered -> name; unregistered private -> kept; otherwise rejected); every header-map and key-map case is repeated inside 28 header carriers (protected / unprotected buckets of every structure, counter signatures, later signers and recipients) and 4 key-set positions. The thorough tier adds label decoding on every integer of [-70000, 70000] and from_i64 / is_private / label decoding on random 64-bit integers (uniform, random widths, registered values displaced by random multiples of 2^8..2^56). Text labels: every text of a probe list (decimal, signed and zero-padded spellings of every registered value, names of every registry entry in several spellings, JWT claim names, private-use boundary and 64-bit extremes as text, texts of 23..70000 bytes) must be kept as text by every label type and typed field. Birthday workload: 2^18 pairwise distinct labels (8-character texts / 64-bit integers / private-use integers) in one map must all be accepted and come back in order (a duplicate detector keyed on anything shorter than the label would report a duplicate that is not there). Non-trivial = distinct (registry, integer) groups.".into()
     }
     fn assumptions(&self) -> Vec<String> {
         vec!["the frozen table in harness/src/registry.rs transcribes the IANA COSE, CBOR-tag, CoAP content-format and CWT registries as of the snapshot the crate documents".into()]
